@@ -22,6 +22,10 @@ theorem appendOpt_none_left {α : Type} (x : Option (List α)) : appendOpt none 
 theorem unknownsOf_cons (a : SCodeAttr) (as : List SCodeAttr) : unknownsOf (a :: as) = unknownsOf [a] ++ unknownsOf as := by
   cases a <;> simp [unknownsOf]
 
+theorem tAnnosRaw_cons (lf : Labels) (pos : Nat → Nat) (v : Bool) (a : SCodeAttr) (as : List SCodeAttr) :
+    tAnnosRaw lf pos v (a :: as) = tAnnosRaw lf pos v [a] ++ tAnnosRaw lf pos v as := by
+  cases a <;> simp [tAnnosRaw]
+
 def framesCount (as : List SCodeAttr) : Nat := (as.filter isFramesAttr).length
 
 theorem framesCount_cons (a : SCodeAttr) (as : List SCodeAttr) :
@@ -48,15 +52,16 @@ theorem readCodeAttrs_ok (p : Pool) (pos : Nat → Nat) (n cl : Nat) (hp : PosOk
     (hcnt : st.labels.count + (as.map SCodeAttr.labelRefs).sum < 65536)
     (hone : framesCount as ≤ 1) (hfr : st.frames.isSome = true → framesCount as = 0) :
     ∃ st', readCodeAttrs p as.length st (as.flatMap (SCodeAttr.encode pos) ++ r) = ok (st', r) ∧ st'.labels.WF ∧
-      Labels.Le st.labels st'.labels ∧ st'.rvta = st.rvta ∧ st'.ritva = st.ritva ∧
+      Labels.Le st.labels st'.labels ∧
       st'.attrs = st.attrs ++ unknownsOf as ∧ (∀ pc ∈ as.flatMap (attrRefs pos), (st'.labels.get pc).isSome = true) ∧
       ∀ lf, Labels.Le st'.labels lf →
         st'.lines = appendOpt st.lines (linesRaw lf pos as) ∧ st'.locals = appendOpt st.locals (localsRaw lf pos as) ∧
-        st'.frames.getD [] = (if framesCount as = 0 then st.frames.getD [] else framesRaw lf pos (framesOf as)) := by
+        st'.frames.getD [] = (if framesCount as = 0 then st.frames.getD [] else framesRaw lf pos (framesOf as)) ∧
+        st'.rvta = st.rvta ++ tAnnosRaw lf pos true as ∧ st'.ritva = st.ritva ++ tAnnosRaw lf pos false as := by
   induction as generalizing st with
   | nil =>
-    exact ⟨st, by simp [readCodeAttrs], hwf, Labels.Le.refl _, rfl, rfl, by simp [unknownsOf], by simp,
-      fun lf _ => by simp [linesRaw, localsRaw, appendOpt, framesCount]⟩
+    exact ⟨st, by simp [readCodeAttrs], hwf, Labels.Le.refl _, by simp [unknownsOf], by simp,
+      fun lf _ => by simp [linesRaw, localsRaw, appendOpt, framesCount, tAnnosRaw]⟩
   | cons a as ih =>
     simp only [List.map_cons, List.sum_cons] at hcnt
     rw [framesCount_cons] at hone hfr
@@ -65,11 +70,11 @@ theorem readCodeAttrs_ok (p : Pool) (pos : Nat → Nat) (n cl : Nat) (hp : PosOk
       cases hs : st.frames with
       | none => rfl
       | some _ => have := hfr (by simp [hs]); simp [h] at this
-    obtain ⟨st1, h1, hwf1, hle1, hc1, hv1, hi1, ha1, hr1, hl1⟩ := readCodeAttr_ok p pos n cl hp hmono a (has a (by simp)) hmonoS st
+    obtain ⟨st1, h1, hwf1, hle1, hc1, ha1, hr1, hl1⟩ := readCodeAttr_ok p pos n cl hp hmono a (has a (by simp)) hmonoS st
       (as.flatMap (SCodeAttr.encode pos) ++ r) hwf hcl (by omega) hfra
     have hfr1 : st1.frames.isSome = true → framesCount as = 0 := by
       intro h
-      have := (hl1 st1.labels (Labels.Le.refl _)).2.2
+      have := (hl1 st1.labels (Labels.Le.refl _)).2.2.1
       cases hia : isFramesAttr a with
       | true => simp [hia] at hone; omega
       | false =>
@@ -79,9 +84,9 @@ theorem readCodeAttrs_ok (p : Pool) (pos : Nat → Nat) (n cl : Nat) (hp : PosOk
         have := hfr h
         simp [hia] at this
         exact this
-    obtain ⟨st2, h2, hwf2, hle2, hv2, hi2, ha2, hr2, hl2⟩ := ih (fun b hb => has b (by simp [hb])) st1 hwf1
+    obtain ⟨st2, h2, hwf2, hle2, ha2, hr2, hl2⟩ := ih (fun b hb => has b (by simp [hb])) st1 hwf1
       (hle1.1.symm.trans hcl) (by omega) (by have := hone; split at this <;> omega) hfr1
-    refine ⟨st2, ?_, hwf2, hle1.trans hle2, hv2.trans hv1, hi2.trans hi1, ?_, ?_, ?_⟩
+    refine ⟨st2, ?_, hwf2, hle1.trans hle2, ?_, ?_, ?_⟩
     · simp only [List.length_cons, readCodeAttrs, List.flatMap_cons, List.append_assoc, h1, ok_bind, h2]
     · rw [ha2, ha1, unknownsOf_cons a as, List.append_assoc]
     · intro pc hpc
@@ -90,10 +95,11 @@ theorem readCodeAttrs_ok (p : Pool) (pos : Nat → Nat) (n cl : Nat) (hp : PosOk
       · exact isSome_of_le hle2 (hr1 pc hpc)
       · exact hr2 pc hpc
     · intro lf hlf
-      obtain ⟨e1, e2, e5⟩ := hl1 lf (hle2.trans hlf)
-      obtain ⟨e3, e4, e6⟩ := hl2 lf hlf
+      obtain ⟨e1, e2, e5, e7, e8⟩ := hl1 lf (hle2.trans hlf)
+      obtain ⟨e3, e4, e6, e9, e10⟩ := hl2 lf hlf
       rw [e3, e1, e4, e2, appendOpt_step_lines, appendOpt_step_locals]
-      refine ⟨rfl, rfl, ?_⟩
+      refine ⟨rfl, rfl, ?_, by rw [e9, e7, tAnnosRaw_cons lf pos true a as, List.append_assoc],
+        by rw [e10, e8, tAnnosRaw_cons lf pos false a as, List.append_assoc]⟩
       rw [e6, framesCount_cons]
       cases hia : isFramesAttr a with
       | true =>
@@ -112,7 +118,8 @@ def Spec.CodeLayout.raw (c : CodeLayout) (lf : Labels) : Code :=
     insns := entriesFrom lf c.pos (framesOf c.attrs) 0 c.insns,
     exceptions := c.exceptions.map (fun e => ⟨labOf lf c.pos e.start, labOf lf c.pos e.end_, labOf lf c.pos e.handler, e.catch_⟩),
     lastLabel := lf.get (c.pos c.insns.length),
-    lines := linesRaw lf c.pos c.attrs, locals := localsRaw lf c.pos c.attrs, rvta := [], ritva := [],
+    lines := linesRaw lf c.pos c.attrs, locals := localsRaw lf c.pos c.attrs,
+    rvta := tAnnosRaw lf c.pos true c.attrs, ritva := tAnnosRaw lf c.pos false c.attrs,
     attrs := unknownsOf c.attrs }
 
 /-- every offset the layout refers to (branch targets, exception ranges and handlers, line and local entries) -/
@@ -180,6 +187,7 @@ theorem framesOf_mem (as : List SCodeAttr) (f : SFrame) (hf : f ∈ framesOf as)
     | lines _ _ => obtain ⟨nc, fs, h1, h2, h3⟩ := ih (by simpa [framesOf] using hf); exact ⟨nc, fs, by simp [h1], h2, by simpa [framesOf] using h3⟩
     | lvt _ _ => obtain ⟨nc, fs, h1, h2, h3⟩ := ih (by simpa [framesOf] using hf); exact ⟨nc, fs, by simp [h1], h2, by simpa [framesOf] using h3⟩
     | lvtt _ _ => obtain ⟨nc, fs, h1, h2, h3⟩ := ih (by simpa [framesOf] using hf); exact ⟨nc, fs, by simp [h1], h2, by simpa [framesOf] using h3⟩
+    | typeAnnos _ _ _ => obtain ⟨nc, fs, h1, h2, h3⟩ := ih (by simpa [framesOf] using hf); exact ⟨nc, fs, by simp [h1], h2, by simpa [framesOf] using h3⟩
     | unknown _ _ _ => obtain ⟨nc, fs, h1, h2, h3⟩ := ih (by simpa [framesOf] using hf); exact ⟨nc, fs, by simp [h1], h2, by simpa [framesOf] using h3⟩
 
 theorem sum_targets_length (pos : Nat → Nat) (xs : List SInsn) :
@@ -252,10 +260,10 @@ theorem readCode_encode (p : Pool) (bsms : Option (List Bsm)) (c : CodeLayout) (
   rw [sum_targets_length] at hcnt1
   simp only [Labels.new, Nat.zero_add] at hcnt1
   -- attributes
-  obtain ⟨st, h3, hwf3, hle3, hrv3, hri3, ha3, hr3, hl3⟩ := readCodeAttrs_ok p c.pos c.insns.length (c.pos c.insns.length) hp hmono hmonoS
+  obtain ⟨st, h3, hwf3, hle3, ha3, hr3, hl3⟩ := readCodeAttrs_ok p c.pos c.insns.length (c.pos c.insns.length) hp hmono hmonoS
     c.attrs hleg.attrs ⟨l2, none, none, none, [], [], []⟩ r hwf2 (hle2.1.symm.trans hcl1) (by simp only []; omega)
     (by simpa [framesCount] using hleg.oneFrames) (by simp)
-  simp only [] at hle3 hrv3 hri3 ha3 hl3 hr3
+  simp only [] at hle3 ha3 hl3 hr3
   have hlf := hl3 st.labels (Labels.Le.refl _)
   -- pass 2
   have hlab : ∀ i (h : i < c.insns.length), TargetsLabelled st.labels c.pos c.insns[i].insn := by
@@ -269,7 +277,7 @@ theorem readCode_encode (p : Pool) (bsms : Option (List Bsm)) (c : CodeLayout) (
     | some id => rw [(hle2.trans hle3).2 _ _ hg]; rfl
   -- the frames the loop left, and their labels
   have hfrs : st.frames.getD [] = framesRaw st.labels c.pos (framesOf c.attrs) := by
-    have := hlf.2.2
+    have := hlf.2.2.1
     by_cases hz : framesCount c.attrs = 0
     · simp only [hz, if_true, Option.getD_none] at this
       rw [this, framesOf_none c.attrs hz]; rfl
@@ -317,6 +325,6 @@ theorem readCode_encode (p : Pool) (bsms : Option (List Bsm)) (c : CodeLayout) (
   simp only [readCode, CodeLayout.encode, List.append_assoc, u16_be16 _ hms, u16_be16 _ hml, u32_be32 _ hcl32, ok_bind,
     hne0, Bool.false_eq_true, if_false, htake, hp1, hc1, u16_be16 _ hleg.nExc, h2',
     u16_be16 _ hleg.nAttrs, h3, hp2, pure_eq]
-  simp only [CodeLayout.raw, hv2 st.labels hle3, hlf.1, hlf.2, appendOpt_none_left, hrv3, hri3, ha3, List.nil_append]
+  simp only [CodeLayout.raw, hv2 st.labels hle3, hlf.1, hlf.2.1, hlf.2.2.2.1, hlf.2.2.2.2, appendOpt_none_left, ha3, List.nil_append]
 
 end ClassRead
